@@ -5,6 +5,9 @@ Property theorems only (helper lemmas live in `Jamm/Proofs`).  The reference is 
 file states what is proved about it and about the model of the code, layer by layer.
 -/
 import Jamm.Proofs.SpecLemmas
+import Jamm.Proofs.TxLemmas
+import Jamm.Proofs.CursorLemmas
+import Jamm.Proofs.FileCheckLemmas
 set_option linter.unusedSectionVars false
 open Std
 
@@ -31,6 +34,35 @@ theorem ref_erase_sorted (k : K) (l : List (K × α)) (h : Sorted l) : Sorted (e
 theorem ref_lookup_erase (k k' : K) (l : List (K × α)) (h : Sorted l) :
     lookup k' (erase k l) = if k' = k then none else lookup k' l :=
   lookup_erase k k' l h
+
+/-! ## The model of the code's reads and in-transaction writes refines the reference, per bucket.
+`WF none none t` is what the verified checker `wfb` establishes on the real file after every commit
+(C05) and what edits preserve (C07). -/
+
+/-- `Bucket::get` on any well-formed tree returns what the reference returns on the tree's contents -/
+theorem get_refines (t : Tree K α) (h : WF none none t) (key : K) :
+    t.lookup key = (lookup key t.flatten).map (fun e => (key, e)) :=
+  lookup_spec none none t h key trivial trivial
+
+/-- a full scan returns the reference's items, which are in strictly ascending key order -/
+theorem scan_refines (t : Tree K α) (h : WF none none t) (n : Nat) (hn : t.flatten.length < n) :
+    (Cursor.drain n { root := t }).1 = t.flatten ∧ Sorted t.flatten := by
+  obtain ⟨hc, hp⟩ := startCursor_spec t h.shp
+  refine ⟨?_, (flatten_sorted none none t h).1⟩
+  rw [drain_fresh_eq t h.shp, if_neg (by omega)]
+  rw [(drain_spec t n _ hc (by rw [hp]; exact hn)).1, hp]
+
+/-- `put` / `delete` (and the leaf edits of bucket creation / deletion) refine the reference's
+insert / erase, for any sequence of them -/
+theorem edits_refine (t : Tree K α) (h : WF none none t) (ops : List (TxOp K α)) :
+    (ops.foldl Tree.applyOp t).flatten = ops.foldl Spec.applyOp t.flatten ∧
+    WF none none (ops.foldl Tree.applyOp t) :=
+  applyOps_spec t h ops
+
+/-- a tree accepted by the executable checker (run on the real bytes after every commit) is
+well-formed, so the three theorems above apply to what the code actually wrote -/
+theorem checked_file_tree_wf (t : Tree K α) (h : wfb none none t = true) : WF none none t :=
+  wfb_sound none none t h
 
 /-- non-vacuity: a concrete sorted list and the laws on it -/
 example : Sorted (Spec.insert (2 : Nat) "b" [(1, "a"), (3, "c")]) ∧
